@@ -313,11 +313,8 @@ Definition jsubs_of (id : bytes) (j : list (bytes * list bytes)) : list bytes :=
 Definition registered_as (c : N) (id : bytes) (s : snap) : bool :=
   match find_client id (sn_clients s) with Some r => sc_conn r =? c | None => false end.
 
-Definition m15_step (k : caps) (i : nat) (m : m15) (b : obs) : m15 * list viol :=
-  let pre := sn_clients (b_pre b) in
-  let post := sn_clients (b_post b) in
-  (* 1. update the spec view with this operation *)
-  let conns1 :=
+(* 1. the spec view updated with this operation *)
+Definition m15_conns1 (k : caps) (m : m15) (b : obs) : list sconn :=
     match b_op b with
     | OConnect c _ p _ id =>
         match success_connack (pkts_to c (b_outs b)) with
@@ -334,14 +331,50 @@ Definition m15_step (k : caps) (i : nat) (m : m15) (b : obs) : m15 * list viol :
         | Some x => if x_open x then put_x (x_with x (x_req x) (x_open x) (Some t) (x_wst x)) (c_conns m) else c_conns m
         | None => c_conns m end
     | _ => c_conns m
-    end in
-  (* connections the broker closed in this step (takeover: the end time is the time of the connect) *)
-  let tnow := op_now (b_op b) in
-  let conns2 := map (fun x => if x_open x && memN (x_conn x) (closes (b_outs b))
-                              then x_with x (x_req x) false (match x_end x with Some t => Some t | None => tnow end) (x_wst x)
-                              else x) conns1 in
+    end.
+
+(* connections the broker closed in this step (takeover: the end time is the time of the connect) *)
+Definition m15_conns2 (k : caps) (m : m15) (b : obs) : list sconn :=
+  map (fun x => if x_open x && memN (x_conn x) (closes (b_outs b))
+                then x_with x (x_req x) false (match x_end x with Some t => Some t | None => op_now (b_op b) end) (x_wst x)
+                else x) (m15_conns1 k m b).
+
+(* 2. discards: identifiers registered before and not after *)
+Definition m15_gone (b : obs) : list sclient :=
+  filter (fun r => negb (has_client (sc_id r) (sn_clients (b_post b)))) (sn_clients (b_pre b)).
+
+(* 7. the subscriptions that justify deliveries: made by the current session of the identifier *)
+Definition m15_j1 (m : m15) (b : obs) : list (bytes * list bytes) :=
+  match b_op b with
+  | OConnect c _ _ _ id =>
+      match success_connack (pkts_to c (b_outs b)) with
+      | Some false => aset id [] (c_jsubs m)
+      | _ => c_jsubs m end
+  | OSubscribe c f _ =>
+      match find_x c (c_conns m) with
+      | Some x => if x_open x then aset (x_id x) (f :: jsubs_of (x_id x) (c_jsubs m)) (c_jsubs m) else c_jsubs m
+      | None => c_jsubs m end
+  | _ => c_jsubs m end.
+
+Definition m15_vjust (i : nat) (conns1 : list sconn) (j1 : list (bytes * list bytes)) (outs : list out) : list viol :=
+  flat_map (fun o => match o with
+      | OPkt c (PPublish mm _) =>
+          match find_x c conns1 with
+          | Some x => if memB (m_topic mm) (jsubs_of (x_id x) j1) then [] else [mkv V15_unjustified i c (x_id x)]
+          | None => [mkv V15_unjustified i c []]
+          end
+      | _ => [] end) outs.
+
+Definition m15_j2 (gone : list sclient) (j1 : list (bytes * list bytes)) : list (bytes * list bytes) :=
+  fold_left (fun j r => aset (sc_id r) [] j) gone j1.
+
+Definition m15_step (k : caps) (i : nat) (m : m15) (b : obs) : m15 * list viol :=
+  let pre := sn_clients (b_pre b) in
+  let post := sn_clients (b_post b) in
+  let conns1 := m15_conns1 k m b in
+  let conns2 := m15_conns2 k m b in
   (* 2. discards: identifiers registered before and not after *)
-  let gone := filter (fun r => negb (has_client (sc_id r) post)) pre in
+  let gone := m15_gone b in
   let v_when := flat_map (fun r =>
       let okay :=
         match find_x (sc_conn r) conns2 with
@@ -395,24 +428,9 @@ Definition m15_step (k : caps) (i : nat) (m : m15) (b : obs) : m15 * list viol :
       | None => [mkv V15_stale_index i 0 id]
       end) (sn_index (b_post b)) in
   (* 7. nothing left, behaviourally: deliveries are justified by subscriptions of the current session *)
-  let j1 := match b_op b with
-            | OConnect c _ _ _ id =>
-                match success_connack (pkts_to c (b_outs b)) with
-                | Some false => aset id [] (c_jsubs m)
-                | _ => c_jsubs m end
-            | OSubscribe c f _ =>
-                match find_x c (c_conns m) with
-                | Some x => if x_open x then aset (x_id x) (f :: jsubs_of (x_id x) (c_jsubs m)) (c_jsubs m) else c_jsubs m
-                | None => c_jsubs m end
-            | _ => c_jsubs m end in
-  let v_just := flat_map (fun o => match o with
-      | OPkt c (PPublish mm _) =>
-          match find_x c conns1 with
-          | Some x => if memB (m_topic mm) (jsubs_of (x_id x) j1) then [] else [mkv V15_unjustified i c (x_id x)]
-          | None => [mkv V15_unjustified i c []]
-          end
-      | _ => [] end) (b_outs b) in
-  let j2 := fold_left (fun j r => aset (sc_id r) [] j) gone j1 in
+  let j1 := m15_j1 m b in
+  let v_just := m15_vjust i conns1 j1 (b_outs b) in
+  let j2 := m15_j2 gone j1 in
   ({| c_conns := conns2; c_jsubs := j2 |}, v_when ++ v_late0 ++ v_late ++ v_conn ++ v_index ++ v_just).
 
 (* =====================================================================================
@@ -450,7 +468,7 @@ Fixpoint m16_pubs (k : caps) (i : nat) (b : obs) (conns : list sconn) (ws : list
                negb (existsb (fun w => beq_bytes (m_topic (snd w)) (m_topic mm) && m_retain (snd w)) r) then
               match aget (m_topic mm) (sn_retained (b_post b)) with
               | Some pl => if beq_bytes pl (m_payload mm) then [] else [mkv V16_retain i c (x_id x)]
-              | None => [mkv V16_retain i c (x_id x)]
+              | None => match m_payload mm with [] => [] | _ => [mkv V16_retain i c (x_id x)] end   (* an empty payload clears the topic *)
               end
             else [] in
           let (cs, v) := m16_pubs k i b (put_x (set_wst x WPublished) conns) r in
